@@ -518,6 +518,10 @@ impl JpegBitstreamReconstructor<'_, '_, '_> {
                     tracing::error!("No component in SOS marker");
                     return Err(Error::InvalidData);
                 }
+                if si.ss > si.se {
+                    tracing::error!(si.ss, si.se, "Invalid spectral selection in SOS marker");
+                    return Err(Error::InvalidData);
+                }
 
                 let num_comps = si.num_comps();
                 let header_len_bytes = (6 + 2 * num_comps as u16).to_be_bytes();
